@@ -1,7 +1,7 @@
 package main
 
 func init() {
-	props["C26"] = &propCfg{Engine: "keepersim", Test: "TestC26", Level: "exploration",
-		Quick:    tierCfg{Runs: 32000, BudgetS: 120},
+	props["C26"] = &propCfg{Engine: "keepersim", Test: "TestC26", Level: "exploration", Overlay: "simrt",
+		Quick:    tierCfg{Runs: 24000, BudgetS: 120},
 		Thorough: tierCfg{Runs: 4000000, JobSize: 4000, BudgetS: 1500}}
 }
